@@ -22,6 +22,8 @@ def lex_ranges(text):
     for part in re.split(r"[,\s]+", text.strip()):
         if not part:
             continue
+        if part == "none":               # `switchport trunk allowed vlan none`: the empty list written out
+            continue
         if part == "to":
             toks.append(0)
         elif "-" in part:
@@ -92,14 +94,17 @@ def cisco_family(name, model, pfx, block, swtrunk):
                 if re.fullmatch(r"[\d,\- ]+", rest):
                     return {"op": op, "toks": lex_ranges(rest)}
         return {"op": "other", "toks": [], "text": c}
-    return Family(name, model, build, lex, ",")
+    f = Family(name, model, build, lex, ",")
+    f.swtrunk = swtrunk
+    return f
 
 
 def huawei_batch_blocks():
     """global VLAN database: `vlan batch` lines plus `vlan N` blocks with options; the device's VLAN set is the union of both"""
-    def build(lines, blocks=()):
+    def build(lines, blocks=(), bare=()):
         rows = [("vlan batch " + ln, od()) for ln in lines]
-        rows += [("vlan %d" % n, od([("name v%d" % n, od())])) for n in blocks]
+        # a VLAN may also be declared on its own without any option (`vlan N` with an empty block) next to the batch line
+        rows += [("vlan %d" % n, od() if n in bare else od([("name v%d" % n, od())])) for n in blocks]
         return od(rows)
 
     def lex(path):
@@ -231,8 +236,14 @@ def run(ctx):
                 # some VLANs of each side additionally have a `vlan N` block with options
                 bo = sorted(rnd.sample(sorted(so), rnd.randint(0, min(2, len(so))))) if so else []
                 bn = sorted(rnd.sample(sorted(sn), rnd.randint(0, min(2, len(sn))))) if sn else []
-                old, new = fam.build([fam.sep.join(x) for x in lo], bo), fam.build([fam.sep.join(x) for x in ln], bn)
+                if fam.sep == " ":
+                    bare_o, bare_n = [b for b in bo if rnd.random() < 0.4], [b for b in bn if rnd.random() < 0.4]
+                    old, new = fam.build([fam.sep.join(x) for x in lo], bo, bare_o), fam.build([fam.sep.join(x) for x in ln], bn, bare_n)
+                else:
+                    old, new = fam.build([fam.sep.join(x) for x in lo], bo), fam.build([fam.sep.join(x) for x in ln], bn)
             else:
+                if getattr(fam, "swtrunk", False) and not ln and lo and rnd.random() < 0.5:
+                    ln = [["none"]]                  # no VLAN allowed any more, spelled as the device prints it
                 old, new = fam.build([fam.sep.join(x) for x in lo]), fam.build([fam.sep.join(x) for x in ln])
             rec = {"id": "%s-%d" % (tag, len(recs)), "kind": "patch", "family": fam.name, "old": [lex_ranges(fam.sep.join(x)) for x in lo],
                    "new": [lex_ranges(fam.sep.join(x)) for x in ln]}
